@@ -12,7 +12,7 @@ Init == tid \in 1..Len(Cases)
 Next == UNCHANGED tid
 Verdict(c) ==
   LET ev == c.events
-      mutated == { i \in DOMAIN ev : ev[i].out = "ok" /\ ev[i].post # ev[i].pre }
+      mutated == { i \in DOMAIN ev : ev[i].post # ev[i].pre }     \* also when the call raised
       raised == { i \in DOMAIN ev : ev[i].out # "ok" /\ ev[i].out # c.firstout[ev[i].q] }
       diverged == { i \in DOMAIN ev : ev[i].out = "ok" /\ c.firstout[ev[i].q] = "ok" /\ ev[i].res # c.first[ev[i].q] }
       drift == { i \in DOMAIN ev : i > 1 /\ ev[i].pre # ev[i - 1].post }
